@@ -254,6 +254,57 @@ def contain_oracle(case, reply):
     return None
 
 
+def materialise(case):
+    """the case's tree on disk (as the harness builds it); returns (base, top_abs)"""
+    top, entries, lines = case["fs"]
+    base = os.path.realpath(tempfile.mkdtemp(prefix="etk-oracle-"))
+    for e in entries:
+        p = os.path.join(base, e[1])
+        os.makedirs(os.path.dirname(p), exist_ok=True)
+        if e[0] == "f":
+            content = bytes.fromhex(e[2]) if isinstance(e[2], str) else e[2]
+            open(p, "wb").write(content.replace(b"@T@", base.encode()))
+        elif e[0] == "d":
+            os.makedirs(p, exist_ok=True)
+        else:
+            tgt = e[2]
+            if tgt.startswith("/"):
+                tgt = os.path.join(base, tgt.lstrip("/"))
+            if not os.path.lexists(p):
+                os.symlink(tgt, p)
+    return base, os.path.join(base, top)
+
+
+def canonical_reads(case, opened):
+    """canonical locations (relative to the tree) of the files the real code opened for reading, the top-level source
+    itself (its first read) excluded"""
+    base, top_abs = materialise(case)
+    try:
+        out, top_seen = [], False
+        for rel in opened:
+            real = os.path.realpath(os.path.join(base, rel))
+            if not top_seen and real == os.path.realpath(top_abs):
+                top_seen = True
+                continue
+            out.append(os.path.relpath(real, base))
+        return out
+    finally:
+        shutil.rmtree(base, ignore_errors=True)
+
+
+def reads_outside(case, opened):
+    base, top_abs = materialise(case)
+    try:
+        root = os.path.realpath(os.path.dirname(top_abs))
+        for rel in opened:
+            real = os.path.realpath(os.path.join(base, rel))
+            if not (real == root or real.startswith(root + os.sep)):
+                return rel
+        return None
+    finally:
+        shutil.rmtree(base, ignore_errors=True)
+
+
 def outside_targets(case):
     """materialise the tree and follow the top-level file's directives with os.path.realpath"""
     top, entries, lines = case["fs"]
